@@ -49,6 +49,8 @@ def gen_cases(rng, tier):
     route = rng.choice(ROUTES) if i % 20 else "cli"
     groute = "api" if route.startswith("api") else "potable"
     model = spec.gen_eam_model(rng, "eam", groute, target=rng.choice(["setfl", "lammps_eam_alloy"]))
+    if groute == "api":
+      model["api_containers"] = rng.choice([None, None, "tuple", "generator", "map"])
     cases.append({"route": route, "model": model, "style": rng.randrange(1 << 30)})
     # exhaustive declaration orders for <= 3 elements (potable route)
     if groute == "potable" and len(model["embed"]) in (2, 3) and i % 3 == 0:
@@ -73,7 +75,7 @@ def produce(case, ctx, model, route, rng):
     return routes.write_tab(routes.eam_tab_api(model))
   if route == "api_legacy":
     import atsim.potentials as ap
-    pots, eams = routes.eam_api_objects(model)[:2]
+    pots, eams = routes.vary_containers(model, routes.eam_api_objects(model)[:2])
     nr, nrho = int(t["nr"]), int(t["nrho"])
     out = io.StringIO()
     fn = ap.writeSetFLFinnisSinclair if model["type"] == "fs" else ap.writeSetFL
@@ -94,8 +96,8 @@ def check_header_and_meta(ctx, p, ref, model, route):
   if p["nrho"] != nrho or p["nr"] != nr:
     ctx.violation("header_counts", "header Nrho=%d Nr=%d, expected %d %d" % (p["nrho"], p["nr"], nrho, nr), what="header_counts")
     return False
-  oracle.check_token(ctx, "header_drho", p["drho"], R.F(drho), 0, rel=1e-15)
-  oracle.check_token(ctx, "header_dr", p["dr"], R.F(dr), 0, rel=1e-15)
+  oracle.check_token(ctx, "header_drho", p["drho"], R.F(drho), 0, rel=1e-15, fmt="setfl")
+  oracle.check_token(ctx, "header_dr", p["dr"], R.F(dr), 0, rel=1e-15, fmt="setfl")
   ctx.note("cutoff echo=%s (nr*dr=%s, cutoff=%s)" % (p["cutoff"], float(dr * nr), model["tab"]["cutoff"]))
   for el in p["elements"]:
     Z, mass, exact, a0, lat = spec.eam_expected_metadata(model, el["name"])
@@ -117,6 +119,8 @@ def run_case(case, ctx):
   potable = not route.startswith("api")
   rng = random.Random(case["style"])
   ctx.cls("route:" + route)
+  if model.get("api_containers"):
+    ctx.cls("api_containers:" + model["api_containers"])
   ctx.cls("target:" + model["target"])
   ctx.cls("nelements:%d" % len(spec.eam_element_order(model)))
   if case.get("perm"):
